@@ -182,12 +182,18 @@ func (l *snapPodLister) Pods(ns string) v1lister.PodNamespaceLister { return nil
 
 type snapNodeLister struct{ nodes []*v1.Node }
 
+// List returns the cache's own objects, as an informer does: the same pointers on every call until the cache is refreshed
+// (set), so whatever the controller writes into them stays there.
 func (l *snapNodeLister) List(sel labels.Selector) ([]*v1.Node, error) {
-	out := make([]*v1.Node, 0, len(l.nodes))
-	for _, n := range l.nodes {
-		out = append(out, stampRV(n))
+	return append([]*v1.Node(nil), l.nodes...), nil
+}
+
+// set fills the cache with delivered copies of the given objects (resource version stamped).
+func (l *snapNodeLister) set(nodes []*v1.Node) {
+	l.nodes = make([]*v1.Node, 0, len(nodes))
+	for _, n := range nodes {
+		l.nodes = append(l.nodes, stampRV(n))
 	}
-	return out, nil
 }
 
 // contentRV: the resource version of a node object is a function of its content, so that a listed copy and the API server's
@@ -359,7 +365,8 @@ func newWorld(s *scanSpec) (*world, error) {
 	w.sim = NewAwsSim(s.Cloud)
 	w.sim.journalSink = w.j
 	w.pods = &snapPodLister{pods: s.Pods, j: w.j}
-	w.nodes = &snapNodeLister{nodes: s.Nodes}
+	w.nodes = &snapNodeLister{}
+	w.nodes.set(s.Nodes)
 	// the simulated AWS attributes calls about instances it does not know to the group being scanned
 	w.pods.onList = func() {
 		w.sim.mu.Lock()
